@@ -27,7 +27,7 @@
     Where a side condition fails the equivalence fails on the real code too
     (c24.py findings): see the [_alignment] theorems. *)
 From Coq Require Import ZArith List Bool Arith Permutation.
-From SP Require Import Design.Flat Front.Trials Front.TrialsProofs Front.Create Front.CreateProofs.
+From SP Require Import Design.Flat Design.Sem Front.Trials Front.TrialsProofs Front.Create Front.CreateProofs Front.CreateSem.
 Import ListNotations.
 
 (** CrossBlock(design, crossing, cs, rcc) = MultiCrossBlock(design, [crossing], cs, rcc, WEIGHT): identical arguments. *)
@@ -141,6 +141,56 @@ Theorem C24_alignment_irrelevant :
     model_min_trials (set_alignment fb a) = model_min_trials fb.
 Proof. exact model_trials_alignment. Qed.
 Print Assumptions C24_alignment_irrelevant.
+
+(** "The same valid sequences".  There is no Coq model of [_create] itself (arguments -> flat
+    record); [denote a] stands for the reference-semantics normal form (Design/Sem.v) of the
+    block [_create] builds from the arguments [a] (Encode/CodeSem.v's [code_sem] of its flat
+    record).  That [_create] is a function of its arguments is the fact that [denote] is a
+    function; the explicit hypothesis [denote_respects] says what else is used: the valid set
+    depends on the arguments only through [args_equiv] - design, non-empty crossings with
+    their sustain counts and weights, rcc, mode, alignment, and the constraints as a set. *)
+Theorem C24_cross_multi_valid :
+  forall (denote : create_args -> sem) design crossing cs rcc a b s,
+    create_of (BCross design crossing cs rcc) = COk a ->
+    create_of (BMulti design [crossing] cs rcc MWeight EqualPreamble) = COk b ->
+    valid_b (denote a) s = valid_b (denote b) s.
+Proof. exact cross_multi_valid. Qed.
+Print Assumptions C24_cross_multi_valid.
+
+Theorem C24_repeat_merge_valid :
+  forall (denote : create_args -> sem),
+    (forall a b, args_equiv a b -> forall s, valid_b (denote a) s = valid_b (denote b) s) ->
+    forall b cs r m s,
+      bi_multicross b = true -> bi_alignment b = EqualPreamble -> not_desugared b -> aligned b -> NoDup (bi_design b) ->
+      create_of (BRepeat b cs) = COk r -> create_of (BMerge [b] cs MRepeat (Some EqualPreamble)) = COk m ->
+      valid_b (denote r) s = valid_b (denote m) s.
+Proof. exact repeat_merge_valid. Qed.
+Print Assumptions C24_repeat_merge_valid.
+
+Theorem C24_multi_merge_valid :
+  forall (denote : create_args -> sem),
+    (forall a b, args_equiv a b -> forall s, valid_b (denote a) s = valid_b (denote b) s) ->
+    forall design crossings cs rcc mode leaves m s,
+      NoDup design -> crossings <> [] ->
+      Forall2 (is_cross_leaf design rcc) crossings leaves ->
+      create_of (BMerge leaves cs mode (Some EqualPreamble)) = COk m ->
+      valid_b (denote (create_multi design crossings cs rcc mode EqualPreamble)) s = valid_b (denote m) s.
+Proof. exact multi_merge_valid. Qed.
+Print Assumptions C24_multi_merge_valid.
+
+(** the "constraints as a set" part of [denote_respects] is a theorem of the reference semantics *)
+Theorem C24_valid_perm_constraints :
+  forall S S' s,
+    s_trials S = s_trials S' -> s_factors S = s_factors S' -> s_crossings S = s_crossings S' ->
+    Permutation (s_constraints S) (s_constraints S') ->
+    valid_b S s = valid_b S' s.
+Proof. exact valid_perm_constraints. Qed.
+Print Assumptions C24_valid_perm_constraints.
+
+(** [denote_respects] is satisfiable by a [denote] that reads the design and every constraint *)
+Example C24_example_denote :
+  forall a b, args_equiv a b -> forall s, valid_b (ex_denote a) s = valid_b (ex_denote b) s.
+Proof. exact ex_denote_respects. Qed.
 
 (** The hypotheses are met: design [0;1], crossings [[0];[1]], the two CrossBlock leaves. *)
 Example C24_example_multicross :
